@@ -8,6 +8,7 @@ CONSTANTS
   MaxSend = 1
   MaxAdv = 2
   CacheMax = 16
+  Extras = {}
   Asks = {FALSE}
 INVARIANTS Attribution
 CHECK_DEADLOCK FALSE
